@@ -252,13 +252,13 @@ func c17Run(c *vfCtx, cs c17Case) {
 		}
 		for _, f := range b.fails {
 			// every failing (matcher, path) must be named; identical duplicates need not be repeated
-			if got := strings.Count(t.errs[0], "match."+f); got < 1 {
+			if !c17Named(t.errs[0], f) {
 				c.violation("", fmt.Sprintf("matchers %v: the failure must name match.%s, it says: %q", cs.Atoms, f, vfClip(t.errs[0])), cs)
 				return
 			}
 		}
 		for _, ok := range b.oks {
-			if strings.Contains(t.errs[0], "match."+ok) {
+			if c17Named(t.errs[0], ok) {
 				c.violation("", fmt.Sprintf("matchers %v: the failure names the satisfied matcher match.%s: %q", cs.Atoms, ok, vfClip(t.errs[0])), cs)
 				return
 			}
@@ -346,4 +346,34 @@ func init() {
 			"x ErrOnMissingPath x {create, UPDATE_SNAPS=true, Update(true), CI} x slot {missing, equal, different} x {MatchJSON, MatchStandaloneJSON, MatchYAML}"
 		c17Gen(c, emit)
 	}, c17Run)
+}
+
+// c17Named: does some line of the failure text name the matcher and the path?
+// f has the form Name("path"); the wording around them is free, the path must
+// stand alone (not as part of a longer path or word).
+func c17Named(text, f string) bool {
+	i := strings.Index(f, "(\"")
+	name, path := f[:i], f[i+2:len(f)-2]
+	isPathChar := func(b byte) bool {
+		return b == '.' || b == '$' || b == '_' || b == '[' || (b >= '0' && b <= '9') || (b >= 'a' && b <= 'z') || (b >= 'A' && b <= 'Z')
+	}
+	for _, line := range strings.Split(text, "\n") {
+		if !strings.Contains(line, name) {
+			continue
+		}
+		for from := 0; ; {
+			j := strings.Index(line[from:], path)
+			if j < 0 {
+				break
+			}
+			j += from
+			before := j == 0 || !isPathChar(line[j-1])
+			after := j+len(path) == len(line) || !isPathChar(line[j+len(path)])
+			if before && after {
+				return true
+			}
+			from = j + 1
+		}
+	}
+	return false
 }
